@@ -20,6 +20,11 @@ func (sc *SpecCtx) kindSig(kind string) *types.Signature {
 	if s, ok := e.kindSigs[kind]; ok {
 		return s
 	}
+	if strings.HasPrefix(kind, "go:") {
+		if fn := e.P.Funcs[kind[3:]]; fn != nil {
+			return fn.Signature // a spawned goroutine: its call is logged under go:<function>
+		}
+	}
 	if v, ok := sc.vars[kind]; ok {
 		if s, ok := v.T.Underlying().(*types.Signature); ok {
 			return s
